@@ -72,3 +72,26 @@ lemma("undo_inverts_do_CreateResource", dict(V, p="Str"),
       ["is_none(select(f0, p))", "f1 == wr(f0, p, Some(''))", "f2 == wr(f1, p, None)"], "f2 == f0")
 lemma("redo_inverts_undo_ChangeContents", dict(V, p="Str", new="Str", oldc="Opt[Str]"),
       ["f1 == wr(f0, p, oldc)", "select(f0, p) == Some(new)", "f2 == wr(f1, p, Some(new))"], "f2 == f0")
+
+# ---- C09: what a leaf announces (get_changed_resources) covers what its do() touches ------------------------------------------------------
+for _cls, _body in (("ChangeContents", ["self.resource"]), ("MoveResource", ["self.resource", "self.new_resource"]),
+                    ("CreateResource", ["self.resource"]), ("RemoveResource", ["self.resource"])):
+    contract(_cls + ".get_changed_resources", source=M + _cls + ".get_changed_resources", params={"self": _cls}, returns="Seq[Resource]", modifies=[], raises={},
+             ensures=["len(result) == %d" % len(_body)] + ["result[%d] == %s" % (i, e) for i, e in enumerate(_body)],
+             note="the resources this leaf announces")
+specdef("announced_path", {"rs": "Seq[Resource]", "p": "Str"}, "Bool", "exists(lambda k: 0 <= k and k < len(rs) and P(rs[k]) == p)")
+W = dict(V, rs="Seq[Resource]")
+lemma("touched_is_announced_ChangeContents", dict(W, c="ChangeContents", p="Str"),
+      ["f1 == wr(f0, P(c.resource), Some(c.new_contents))", "not announced_path(rs, p)"], "select(f1, p) == select(f0, p)",
+      uses=[("ChangeContents.get_changed_resources", {"self": "c", "result": "rs"})],
+      note="ChangeContents.do leaves every path it does not announce as it was")
+lemma("touched_is_announced_MoveResource", dict(W, c="MoveResource", p="Str"),
+      ["f1 == wr(wr(f0, P(c.resource), None), P(c.new_resource), select(f0, P(c.resource)))", "not announced_path(rs, p)"], "select(f1, p) == select(f0, p)",
+      uses=[("MoveResource.get_changed_resources", {"self": "c", "result": "rs"})],
+      note="a move touches the old and the new path only, and announces both")
+lemma("touched_is_announced_CreateResource", dict(W, c="CreateResource", p="Str"),
+      ["f1 == wr(f0, P(c.resource), Some(''))", "not announced_path(rs, p)"], "select(f1, p) == select(f0, p)",
+      uses=[("CreateResource.get_changed_resources", {"self": "c", "result": "rs"})])
+lemma("touched_is_announced_RemoveResource", dict(W, c="RemoveResource", p="Str"),
+      ["f1 == wr(f0, P(c.resource), None)", "not announced_path(rs, p)"], "select(f1, p) == select(f0, p)",
+      uses=[("RemoveResource.get_changed_resources", {"self": "c", "result": "rs"})])
